@@ -12,7 +12,7 @@
 From Coq Require Import String.
 From ZV Require Import Lib.Base Model.Web Proofs.Web Generated.WebPages Generated.WebSinks.
 From ZV Require Import Model.WebResp Proofs.WebResp Generated.WebRoutes.
-From ZV Require Import Model.WebJs Proofs.WebJs.
+From ZV Require Import Model.WebJs Proofs.WebJs Model.WebUrl Proofs.WebUrl.
 Open Scope N_scope.
 
 (** (i-a) For every line match whose fragments are sorted, non-overlapping and inside the line — whatever lies in the
@@ -79,6 +79,18 @@ Theorem C36_jsstr_literal_integrity : forall q, q = 34 \/ q = 39 ->
   forall v rest, js_lit q (esc_jsstr v ++ q :: rest)%list = Some rest.
 Proof. exact jsstr_literal_integrity. Qed.
 Print Assumptions C36_jsstr_literal_integrity.
+
+(** (ii-e) URL filter (href/src/action slots that start the URL: html/template's urlFilter / isSafeURL, Model/WebUrl.v):
+    whatever the value, what the filter lets through is read by the user agent ([ua_scheme]: URL Standard — leading
+    C0-control-or-space stripped, ASCII tab/newline removed everywhere, scheme = ALPHA *(ALPHA/DIGIT/+/-/.) ":") as a
+    relative reference or as an http / https / mailto URL; everything else (javascript:, data:, "java<TAB>script:", …)
+    becomes "#ZgotmplZ". The Unicode case folding of strings.EqualFold is modelled (U+017F long s ~ s: "httpſ:" passes the
+    filter and is a relative reference for the user agent).
+    PARTIAL: only the filter's decision is tied to html/template (case CUrl); the normaliser and the attribute escaper
+    that run after it (they percent-/entity-encode, never decode) are not part of this theorem. *)
+Theorem C36_url_filter_harmless_partial : forall s, url_harmless (url_filter s) = true.
+Proof. exact url_filter_harmless. Qed.
+Print Assumptions C36_url_filter_harmless_partial.
 
 (** (iii) sinks_are_plain (generated with go/types): nothing of type template.HTML/JS/URL/CSS/HTMLAttr/… and no
     interface value flows into an html/template execution or out of a template function; every data slot inside an
@@ -268,4 +280,15 @@ Example C36_nonvacuous_jsstr :
   js_lit 34 (esc_jsstr (str """;alert(1);//</script><script>") ++ 34 :: str ";")%list = Some (str ";") /\
   js_lit 34 (str """;alert(1);//" ++ 34 :: str ";")%list = Some (str ";alert(1);//"";") /\
   js_lit 39 (str "</script>" ++ 39 :: str ";")%list = None.
+Proof. vm_compute. repeat split; reflexivity. Qed.
+
+Example C36_nonvacuous_url_filter :
+  url_harmless (str "javascript:alert(1)") = false /\
+  url_harmless (str "java" ++ [9] ++ str "script:alert(1)")%list = false /\
+  url_harmless (str " JaVaScRiPt:alert(1)") = false /\
+  url_filter (str "java" ++ [9] ++ str "script:alert(1)")%list = str "#ZgotmplZ" /\
+  url_filter (str "https://example.com/a:b") = str "https://example.com/a:b" /\
+  url_filter (str "/a:b") = str "/a:b" /\
+  is_safe_url (str "http" ++ [197; 191] ++ str "://x")%list = true /\
+  ua_scheme (str "http" ++ [197; 191] ++ str "://x")%list = None.
 Proof. vm_compute. repeat split; reflexivity. Qed.
